@@ -101,6 +101,8 @@ func GenSshdMsg(t *simrt.Tape, form string, uniq int) *SshdMsg {
 				l.KeyID = "" // ssh-keygen -I '': sshd prints "ID  (serial N)"
 			case 0:
 				l.KeyID = fmt.Sprintf("ops team (serial %d) x", uniq)
+			case 1:
+				l.KeyID = fmt.Sprintf("ops[prod]: deploy %d", uniq) // what a syslog tag looks like, inside the key id
 			case 2:
 				l.KeyID = fmt.Sprintf("ci-job[%d]", 40000+uniq) // a bracketed number, as in "sshd[4242]:"
 			case 3:
